@@ -281,6 +281,122 @@ theorem layout_measure_witnesses :
     (broken 20 0 imp = false ∧ flatWidthItems imp = 21)
       ∧ (broken 6 0 lst = true ∧ flatWidthItems lst = 6 ∧ broken 7 0 lst = false) := by decide
 
+
+/-! ### The render functions (`FormatItem::render`, both branches of `render_group`)
+
+`renderItem` / `flatItems` / `loopItems` of `Model/Layout.lean` model the whole render layer: what a
+group's item tree is turned into, as the widths of the emitted lines. Every group the formatter
+renders while formatting the sampled programs is compared with it on each run (hook H6 v2). -/
+
+/-- `layout_single_line_render`: on a one-line tree that fits, `render_group` emits exactly one line,
+of width `flatWidth` — the earlier `layout_*` statements are statements about `renderItem`. -/
+theorem layout_single_line_render (o : Opt) (is : Items) (ind : Bool) (col : Nat)
+    (h : flatOneLineItems is = true) (hb : broken o.lineLen col is = false) :
+    renderGroupLines o is ind col = some [flatWidthItems is] := by
+  rw [LayoutLemmas.broken_eq_tooLong o.lineLen col is h] at hb
+  have hle : lineLengthItems is ≤ o.lineLen - col := by simp [tooLong] at hb; exact hb
+  have h2 := LayoutLemmas.anyForce_false is h
+  have h3 := LayoutLemmas.lastBlock_false is h
+  have := LayoutLemmas.flat_items o col is h hle 0
+  simp only [renderGroupLines, renderItem, hb, h2, h3, Bool.or_self, Bool.false_eq_true, if_false]
+  simpa using this
+
+/-- `layout_render_text_fixpoint`: rendered lines, re-read as items (every line one piece of text,
+`LayoutLemmas.reify`), render to themselves — whatever the options, the column and the `indented`
+flag: the render functions never reflow text. -/
+theorem layout_render_text_fixpoint (o : Opt) (ind : Bool) (col l : Nat) (ls : List Nat) :
+    renderGroupLines o (LayoutLemmas.reify (l :: ls)) ind col = some (l :: ls) :=
+  LayoutLemmas.render_reify o ind col l ls
+
+/-- `layout_render_idempotent_on_text` (group-level idempotence, text form): render a group, re-measure
+the rendered lines as items, render again — under any options, column and flag — and the line widths
+are the same. -/
+theorem layout_render_idempotent_on_text (o o' : Opt) (is : Items) (ind ind' : Bool) (col col' l : Nat)
+    (ls : List Nat) (_h : renderGroupLines o is ind col = some (l :: ls)) :
+    renderGroupLines o' (LayoutLemmas.reify (l :: ls)) ind' col' = some (l :: ls) :=
+  LayoutLemmas.render_reify o' ind' col' l ls
+
+/-- `layout_too_long_as_forced`: in a group that is not itself indented and has no
+`SpaceOrIndent` / `SpaceOrReturn` break and no `OptionalChar` among its direct items, the break loop
+produces the same result whether the group is broken because it is too long or because a break is
+forced (and then whether or not it is also too long). -/
+theorem layout_too_long_as_forced (o : Opt) (tl : Bool) (is : Items) (st : St)
+    (hok : LayoutLemmas.okItems is = true) (hp : LayoutLemmas.okBrk st.pending = true) :
+    loopItems o true false false is st = loopItems o tl true false is st :=
+  LayoutLemmas.tooLong_as_force o tl is st hok hp
+
+/-- `layout_upgrade_idempotent` (group-level idempotence, tree form): the second pass finds line
+breaks where the first pass broke a too-long group, and the builder then pushes `IndentedBreak` where
+it pushed `MaybeIndent` (`maybe_force_indent`, `indented_break`: `LayoutLemmas.upgrade`). For a group
+that is not itself indented, broken only because it is too long, without `SpaceOrIndent` /
+`SpaceOrReturn` / `OptionalChar` direct items, the upgraded tree renders to exactly the same text —
+at the same options and column, whether or not the upgraded group still measures as too long. -/
+theorem layout_upgrade_idempotent (o : Opt) (is : Items) (ro : Bool) (col : Nat)
+    (hok : LayoutLemmas.okItems is = true) (htl : tooLong o.lineLen col is = true)
+    (hf : anyItem forceBreak is = false) :
+    renderItem o (.group (LayoutLemmas.upgrade is)) false ro col = renderItem o (.group is) false ro col :=
+  LayoutLemmas.render_upgrade o is ro col hok htl hf
+
+/-- Non-vacuity: `|aaaa, bbbb|` (function arguments: `|`, MaybeIndent, `aaaa`, `,`,
+SpaceOrIndentIfNecessary, `bbbb`, MaybeReturn, `|`) at line_length 8: too long, rendered on three
+lines `|` / `  aaaa,` + … ; the upgraded tree is a different tree and renders to the same lines. -/
+example :
+    let is : Items := .cons (.char 1) (.cons (.brk .maybeIndent) (.cons (.str 4 []) (.cons (.char 1)
+      (.cons (.brk .spaceOrIndentIfNecessary) (.cons (.str 4 []) (.cons (.brk .maybeReturn)
+      (.cons (.char 1) .nil)))))))
+    let o : Opt := { lineLen := 8, indentWidth := 2 }
+    LayoutLemmas.okItems is = true ∧ tooLong o.lineLen 0 is = true ∧ anyItem forceBreak is = false
+      ∧ anyItem forceBreak (LayoutLemmas.upgrade is) = true
+      ∧ renderGroupLines o is false 0 = some [1, 7, 6, 1]
+      ∧ renderGroupLines o (LayoutLemmas.upgrade is) false 0 = some [1, 7, 6, 1] := by decide
+
+/-- The `not itself indented` hypothesis is needed, and this is a real cause of non-idempotence
+(the sub-cause "assignment value moved below `=` at the same indent" of F-C11-6): in an INDENTED
+group a `SpaceOrIndentIfNecessary` that does not fit turns into `MaybeReturn` — line break WITHOUT
+indent — while the second pass, finding the line break, pushes `IndentedBreak`, which in an indented
+group is treated as `MaybeIndent` — line break WITH indent. `x =` / `vvvvvv` at line_length 6:
+first pass lines [3, 6], second pass [3, 8]. -/
+theorem layout_indented_upgrade_unstable :
+    let o : Opt := { lineLen := 6, indentWidth := 2 }
+    let pass1 : Items := .cons (.str 1 []) (.cons (.brk .spaceOrIndentIfNecessary) (.cons (.char 1)
+      (.cons (.brk .spaceOrIndentIfNecessary) (.cons (.str 6 []) .nil))))
+    let pass2 : Items := .cons (.str 1 []) (.cons (.brk .spaceOrIndentIfNecessary) (.cons (.char 1)
+      (.cons (.brk .indentedBreak) (.cons (.str 6 []) .nil))))
+    renderGroupLines o pass1 true 0 = some [3, 6] ∧ renderGroupLines o pass2 true 0 = some [3, 8]
+      ∧ renderGroupLines o pass1 false 0 = some [3, 8] ∧ renderGroupLines o pass2 false 0 = some [3, 8] := by
+  decide
+
+/-- The action table: what the break logic puts in front of the next item. `SpaceOrIndent` always
+separates the items (space or line break) … -/
+theorem layout_action_spaceOrIndent (tl f ind acc : Bool) :
+    Brk.action .spaceOrIndent tl f ind acc = (if tl then .newlineIndent else .space) := by
+  cases tl <;> cases f <;> cases ind <;> cases acc <;> rfl
+
+/-- … but `SpaceOrReturn` (between `from x` and `import y`) in a group that is force-broken without
+being too long emits `group_start_indent` with NO line break in front — at column 0 nothing at all:
+`from` `abcd`·`import` `x` would be glued (`abcdimport`). Latent: no unchanged code path was found
+that puts a forcing break into an Import group (a prototype repair of F-C11-10 did, and produced
+`from numberimport pi`). -/
+theorem layout_action_spaceOrReturn_witness :
+    (∀ ind acc, Brk.action .spaceOrReturn false true ind acc = .returnOnly)
+      ∧ renderGroupLines { lineLen := 100, indentWidth := 2 }
+          (.cons (.str 4 []) (.cons (.brk .spaceOrIndent) (.cons (.str 4 []) (.cons (.brk .spaceOrReturn)
+            (.cons (.str 6 []) (.cons (.brk .indentedBreak) (.cons (.str 1 []) .nil)))))))
+          false 0 = some [15, 3] := by
+  constructor
+  · intro ind acc; cases ind <;> cases acc <;> rfl
+  · decide
+
+/-- first pass / second pass actions agree for the builder's upgrades when the group is not indented:
+`MaybeIndent` under too-long = `IndentedBreak` under force = the break a non-fitting
+`…IfNecessary` turns into — always line break + indent. -/
+theorem layout_action_upgrade_stable (tl acc : Bool) :
+    Brk.action .maybeIndent true false false true = .newlineIndent
+      ∧ Brk.action .indentedBreak tl true false acc = .newlineIndent
+      ∧ Brk.action (ifNecessaryBreak false) tl true false acc = .newlineIndent
+      ∧ Brk.action (ifNecessaryBreak false) true false false true = .newlineIndent := by
+  cases tl <;> cases acc <;> decide
+
 end Layout
 
 end KotoVerif.C11
